@@ -219,7 +219,10 @@ func (e *Engine) doSend(st *State, fr *Frame, ch *smt.Term, val Value, vt types.
 	}
 	// send on a closed channel: excluded by the package-level syntactic check that no
 	// channel that is ever closed is ever sent on (see SyntacticChecks).
-	st.Heap["chan.mine"] = c.Store(e.chMine(st), ch, c.True())
+	if st0, ok := under(vt).(*types.Struct); ok && st0.NumFields() == 0 {
+		// chan struct{} with capacity 1 used as a mutex: the buffered token is ours
+		st.Heap["chan.mine"] = c.Store(e.chMine(st), ch, c.True())
+	}
 	if s := scalarSort(vt); s == smt.BV64 {
 		vterm := e.asTerm(st, val, vt)
 		st.Heap["chan.lastsent"] = c.Store(e.chLastSent(st), ch, vterm)
